@@ -102,6 +102,9 @@ pub struct NetCfg {
     /// stream credit is granted by scheduler events when someone waits (else only by the scenario)
     pub auto_grant: bool,
     pub max_datagram: usize,
+    /// a reset is reported to the reader once; later reads answer end of stream (what Quinn does, and what the
+    /// contract of quic::RecvStream::poll_data allows: `None` once no more data will be received)
+    pub reset_then_end: bool,
 }
 impl Default for NetCfg {
     fn default() -> Self {
@@ -118,6 +121,7 @@ impl Default for NetCfg {
             reset_discards_rx: true,
             auto_grant: true,
             max_datagram: 1200,
+            reset_then_end: false,
         }
     }
 }
@@ -137,6 +141,7 @@ impl NetCfg {
             reset_discards_rx: draw(2) == 0,
             auto_grant: true,
             max_datagram: 1200,
+            reset_then_end: draw(3) == 2,
         }
     }
 }
@@ -215,6 +220,8 @@ pub struct Dir {
     pub first_frame_seen: bool,
     /// reads answered after the stream had reported its end (FIN or RESET)
     pub terminal_reads: u32,
+    /// the reset has been reported to the reader (see NetCfg::reset_then_end)
+    pub reset_reported: bool,
 }
 
 #[derive(Default, Debug)]
@@ -1091,6 +1098,7 @@ impl quic::RecvStream for SimRecv {
         let mut n = self.net.lock().unwrap();
         let coalesce = n.cfg.coalesce_reads;
         let segmented = n.cfg.segmented_reads;
+        let reset_then_end = n.cfg.reset_then_end;
         let fault = n.sides[self.side as usize].fault.clone();
         let d = n.dirs.get_mut(&(self.id, 1 - self.side)).unwrap();
         if d.inject_read_err {
@@ -1134,6 +1142,11 @@ impl quic::RecvStream for SimRecv {
             return Poll::Ready(Err(f.to_stream()));
         }
         if d.reset_delivered {
+            if reset_then_end && d.reset_reported {
+                obs::count("net.read_after_reported_reset_answered_end_of_stream");
+                return Poll::Ready(Ok(None));
+            }
+            d.reset_reported = true;
             return Poll::Ready(Err(StreamErrorIncoming::StreamTerminated { error_code: d.reset_sent.unwrap() }));
         }
         if d.fin_delivered {
